@@ -67,3 +67,24 @@ def replay_load_twice(inp):
         if why:
             bad.append({"file": name, "why": why})
     return {"violates": bool(bad), "detail": bad}
+
+
+def check_agrees_with_lookup(inp):
+    """a host listed twice (plain and hashed, or on two lines) with different keys of one type: check(host, key) must be
+    true exactly for the key lookup(host) reports for that type"""
+    from paramiko.hostkeys import HostKeys, HostKeyEntry
+    from paramiko import ECDSAKey
+    keys = [ECDSAKey.generate() for _ in range(3)]
+    bad = []
+    for order in ([0, 1], [1, 0], [0, 1, 2]):
+        hk = HostKeys()
+        for n, i in enumerate(order):
+            name = "alpha.example.com" if n % 2 == 0 else HostKeys.hash_host("alpha.example.com")
+            hk._entries.append(HostKeyEntry([name], keys[i]))
+        reported = hk.lookup("alpha.example.com")[keys[0].get_name()]
+        for i, k in enumerate(keys):
+            want = reported.asbytes() == k.asbytes()
+            got = hk.check("alpha.example.com", k)
+            if got != want:
+                bad.append({"entries": order, "key": i, "check": got, "lookup_reports_that_key": want})
+    return {"violates": bool(bad), "detail": bad[:3]}
